@@ -1,5 +1,6 @@
 import HeimdallModel.Lemmas.Mech
 import HeimdallModel.Lemmas.MechTypes
+import HeimdallModel.Lemmas.MechHistory
 import HeimdallModel.Model.Footprint
 import HeimdallModel.Gen.Footprints
 /-!
@@ -441,5 +442,68 @@ theorem c17_zero_values_on_the_rule_level :
       ⟨["payload"], [(("payload", ""), "\"\"")], true⟩ = none ∧
     heimdallSpec.replace "genericContextualizer" "payload" [(("payload", ""), "\"x\"")]
       ⟨["payload"], [(("payload", ""), "\"\"")], true⟩ = some [(("payload", ""), "\"\"")] := by decide +kernel
+
+/-! ## Histories of creations on one factory: every rule gets the catalogue entry overlaid with ITS OWN config
+
+`mechanismsFactory.Create…` keeps nothing between two calls.  Rule-level configs are typed values in this model
+(an entry is the canonical JSON text of the value): `"1"` and `1`, `"[a b]"` and `["a","b"]`, `{X-A: "1 X-B:2"}` and
+`{X-A: "1", X-B: "2"}` are different overrides however alike they print. -/
+
+/-- **Regardless of which rules were loaded before.**  In every history of `Create…` calls on one factory (any
+requests before and after, for the same or other catalogue entries, accepted or refused), the answer to a request
+for a catalogue entry — refused / the prototype / a variant — and the configuration the object handed out stands
+for at the end of the history are those of the same request put to a factory that has seen nothing else: the
+catalogue entry overlaid with the request's own `config` (`c17_create_end_to_end`). -/
+theorem c17_history_of_creations_is_local (σ₀ : Store Entries Override) (hcl : Closed σ₀)
+    (pre post : List CreateReq) (p : Option Nat) (ov : Option Override)
+    (hp : ∀ q, p = some q → ∃ i : Inst, σ₀.insts[q]? = some i) :
+    ((createSeq σ₀ (pre ++ (p, ov) :: post)).2[pre.length]?).map
+        (Handed.observed (createSeq σ₀ (pre ++ (p, ov) :: post)).1) =
+      some (createAlone σ₀ (p, ov)) :=
+  createSeq_kth pre σ₀ σ₀ (Extends.refl hcl) hcl post p ov hp
+
+/-- a catalogue with one anonymous authenticator (subject `anon`) and one header finalizer -/
+def lookEntries : List (TypeD × String × Entries) :=
+  match typeByName "authenticator" "anonymous", typeByName "finalizer" "header" with
+  | some a, some h => [(a, "a", [(("subject", ""), "\"anon\"")]), (h, "h", [(("headers", ""), "{\"X-User\":\"u\"}")])]
+  | _, _ => []
+
+def lookCat : Store Entries Override := lookEntries.foldl (fun σ c => load σ c.1 c.2.1 c.2.2) emptyStore
+
+/-- `subject: "1"`, `subject: 1` (refused by the decoder: not a string), one header `X-A: 1 X-B:2`, two headers -/
+def ovStr : Override := ⟨["subject"], [(("subject", ""), "\"1\"")], true⟩
+def ovNum : Override := ⟨["subject"], [(("subject", ""), "1")], false⟩
+def ovOne : Override := ⟨["headers"], [(("headers", ""), "{\"X-A\":\"1 X-B:2\"}")], true⟩
+def ovTwo : Override := ⟨["headers"], [(("headers", ""), "{\"X-A\":\"1\",\"X-B\":\"2\"}")], true⟩
+
+/-- the history of the theorem's hypothesis, with look-alike overrides: every answer is the answer alone -/
+example : Closed lookCat := (loadAll_closed lookEntries emptyStore emptyStore_closed.1 emptyStore_closed.2).1
+
+example : lookCat.insts.length = 2 ∧
+    (createSeq lookCat [(some 0, some ovStr), (some 0, some ovNum), (some 1, some ovOne), (some 1, some ovTwo)]).2 =
+      [.variant 2, .configError, .variant 3, .variant 4] ∧
+    createAlone lookCat (some 0, some ovNum) = .configError ∧
+    createAlone lookCat (some 1, some ovTwo) = .shows false [(("headers", ""), "{\"X-A\":\"1\",\"X-B\":\"2\"}")] ∧
+    createAlone lookCat (some 1, some ovOne) = .shows false [(("headers", ""), "{\"X-A\":\"1 X-B:2\"}")] := by
+  decide +kernel
+
+/-- what `%v` shows of a config: the texts without their quotes (a key that is not injective) -/
+def printed (ov : Override) : List (Key × String) :=
+  ov.entries.map fun e => (e.1, match e.2 with
+    | "\"1\"" => "1"
+    | "{\"X-A\":\"1 X-B:2\"}" => "map[X-A:1 X-B:2]"
+    | "{\"X-A\":\"1\",\"X-B\":\"2\"}" => "map[X-A:1 X-B:2]"
+    | s => s)
+
+/-- **A memo keyed by the printed config breaks it** (the seeded defects): the rule with `subject: 1` is handed
+the variant of the rule with `subject: "1"` instead of being refused, and the rule that sets two headers is handed
+the finalizer of the rule that sets one — the answers are no longer those of the requests alone -/
+example : printed ovStr = printed ovNum ∧ ovStr ≠ ovNum ∧ printed ovOne = printed ovTwo ∧ ovOne ≠ ovTwo ∧
+    (memoSeq printed lookCat [] [(some 0, some ovStr), (some 0, some ovNum), (some 1, some ovOne), (some 1, some ovTwo)]).2 =
+      [.variant 2, .variant 2, .variant 3, .variant 3] ∧
+    ((memoSeq printed lookCat [] [(some 1, some ovOne), (some 1, some ovTwo)]).2[1]?).map
+        (Handed.observed (memoSeq printed lookCat [] [(some 1, some ovOne), (some 1, some ovTwo)]).1) ≠
+      some (createAlone lookCat (some 1, some ovTwo)) := by
+  decide +kernel
 
 end Heimdall.Props.C17
